@@ -339,9 +339,36 @@ def r4_every_error(ctx):
     yield Ob('error_html:error_html.gen_seg renders every element position', ok, ctx.floc(f), '' if ok else 'element range changed')
 
 
+def r5_escaped_once(ctx):
+    """stripping the markup recovers the source: text is escaped exactly once.  A self attribute that already holds
+    escaped text (assigned from escape_html_chars) must not be passed through escape_html_chars again."""
+    cls = ctx.cls('error_html', 'error_html')
+    escaped = set()
+    for n in ast.walk(cls):
+        if isinstance(n, ast.Assign) and isinstance(n.value, ast.Call) and A.call_target(n.value)[1] == 'escape_html_chars':
+            for t in n.targets:
+                p_ = path_of(t)
+                if p_ and p_.startswith('self.'):
+                    escaped.add(p_)
+    n_calls = 0
+    for f in cls.body:
+        if not isinstance(f, ast.FunctionDef):
+            continue
+        for c in A.calls_in(f):
+            if A.call_target(c)[1] == 'escape_html_chars' and c.args:
+                n_calls += 1
+                p_ = path_of(c.args[0])
+                ok = p_ not in escaped
+                yield Ob('error_html:error_html.%s escapes %s once' % (f.name, norm(c.args[0], 40)), ok, ctx.loc('error_html', c),
+                         '' if ok else '%s already holds escaped text (assigned from escape_html_chars): escaping it again shows `&amp;gt;` for `>`' % p_)
+    if n_calls < 5:
+        raise AnalysisError('error_html: escape_html_chars calls not found')
+
+
 RULES = [
     Rule('C19.R1', 'every interpolated piece of every HTML write is constant, integer, map text or escaped', r1_escaping, floor=15),
     Rule('C19.R2', 'escape chain: & first, < and > covered', r2_escape_chain, floor=3),
     Rule('C19.R3', 'header before, one gen_seg per iteration, footer after (CFG)', r3_every_segment, floor=4),
     Rule('C19.R4', 'error code filters partition the codes; all nodes, element errors and positions rendered', r4_every_error, floor=6),
+    Rule('C19.R5', 'no text is escaped twice', r5_escaped_once, floor=5),
 ]
